@@ -551,7 +551,9 @@ func skeletons(maxLen int) {
 // return/break/continue) with later logical operators, ternaries, loops and operations that
 // fail for some arguments, and calls it with one argument tuple.
 func deadCodeProgram(r *lib.RNG) string {
-	dead := []string{"b = b", "a = !a", "x := [a, b]", "return b", "b += 1", "for { break }", "a = a && b || a"}
+	// a bare `return` makes a dead region that STARTS with an OpReturn (round 10, seeded change C03-m13: a fast path that
+	// recorded the first dropped offset only in the generic dead-code branch, not in the OpReturn branch)
+	dead := []string{"b = b", "a = !a", "x := [a, b]", "return b", "b += 1", "for { break }", "a = a && b || a", "return", "return; return b", "return; b = 1"}
 	val := []string{"a", "b", "1", "b - 1", "[a][0]", "a || b", "a && b", "b ? a : 2", "(a || b) && (b || a)", "len([a, b])", "b + 1", "string(b)"}
 	var sb strings.Builder
 	sb.WriteString("f := func(a, b) {\n")
